@@ -269,13 +269,13 @@ func capOps(ops []opRec) any {
 
 func run(r *vkit.Report) {
 	workers := runtime.GOMAXPROCS(0)
-	nHeap := r.Scale(7000, 80000)
-	nPQ := r.Scale(9000, 120000)
+	nHeap := r.Scale(7000, 60000)
+	nPQ := r.Scale(9000, 90000)
 	posReps := r.Scale(3, 20)
 	nPos := len(posScripts) * posReps
 
 	// large histories first: they are the longest cases
-	nLarge := r.Scale(48, 480)
+	nLarge := r.Scale(48, 288)
 	nThr := r.Scale(thrMaxK*12, thrMaxK*12*4)
 	wall := map[string]float64{} // recorded only (never judged)
 	timed := func(group string, n int, fn func(c *vkit.Case)) {
@@ -285,6 +285,8 @@ func run(r *vkit.Report) {
 	}
 	ics := initCases(r.Thorough())
 	nGrow := r.Scale(72, 288)
+	scs := spineCases(r.Thorough())
+	timed("spine", len(scs), func(c *vkit.Case) { runSpine(c, scs) })
 	timed("init", len(ics), func(c *vkit.Case) { runInit(c, ics) })
 	timed("large", nLarge, runLarge)
 	timed("thr", nThr, runThr)
@@ -311,7 +313,7 @@ func run(r *vkit.Report) {
 		r.SetExtra("violating_cases_by_group", out)
 	}
 	violTrack.Unlock()
-	r.SetExtra("histories", map[string]int{"init (constructed from initial slices up to 300000 items)": len(ics), "grow (Grow/Shrink sweeps)": nGrow, "large (up to 70000+ items)": nLarge, "thr (size boundaries 2^k-1, 2^k, 2^k+1, k <= 16)": nThr, "heap": nHeap, "pq": nPQ, "pos (every size 1..16 x every index x action x build)": nPos})
+	r.SetExtra("histories", map[string]int{"spine (position-targeted Remove/Update above 2^17 keys; heap size parity)": len(scs), "init (constructed from initial slices up to 300000 items)": len(ics), "grow (Grow/Shrink sweeps)": nGrow, "large (up to 70000+ items)": nLarge, "thr (size boundaries 2^k-1, 2^k, 2^k+1, k <= 16)": nThr, "heap": nHeap, "pq": nPQ, "pos (every size 1..16 x every index x action x build)": nPos})
 
 	// Coverage floors: sums over the whole (seed-determined) case list.
 	q := int64(1)
@@ -323,12 +325,24 @@ func run(r *vkit.Report) {
 		r.Floor("largest "+what+" held in a large history", r.Table("max:sizes", "large "+what+" items held"), 70000)
 		r.Floor("largest "+what+" held in the boundary sweep", r.Table("max:sizes", "thr "+what+" items held"), 2*(1<<thrMaxK))
 		for _, size := range []int{1000, 4096, 8192, 20000} {
-			fl(fmt.Sprintf("large %s histories that reached the plateau %d", what, size), "large: plateaus reached", fmt.Sprintf("%s %d", what, size), 20)
+			r.Floor(fmt.Sprintf("large %s histories that reached the plateau %d", what, size), r.Table("large: plateaus reached", fmt.Sprintf("%s %d", what, size)), int64(r.Scale(20, 100)))
 		}
 		fl("large "+what+" histories that reached the plateau 70000", "large: plateaus reached", what+" 70000", 3)
 		fl("new strict minimum inserted into a "+what+" holding >= 4095", "large: new strict minimum inserted", what+" holding >= 4095", 200)
 		fl(what+" Pop directly followed by an insert while holding >= 4096", "large: Pop directly followed by an insert", what+" holding >= 4096", 50000)
 	}
+	big := "spine: targeted operations (n > 2^17: true)"
+	for _, cls := range []string{"index 2^d-1", "index 2^d-2", "last slot", "root", "parent of the last slot"} {
+		for _, op := range []string{"min", "remove"} {
+			r.Floor("queue above 2^17 keys: "+op+" @ "+cls, r.Table(big, op+" @ "+cls), 6)
+		}
+	}
+	r.Floor("queue above 2^17 keys: max @ index 2^d-1", r.Table(big, "max @ index 2^d-1"), 50)
+	r.Floor("queue above 2^17 keys: remove @ parent of the last slot (single left child)", r.Table(big, "remove @ parent of the last slot (single left child)"), 100)
+	r.Floor("queue above 2^17 keys: remove @ ancestor on the smaller-child path to the parent of the last slot", r.Table(big, "remove @ ancestor whose smaller-child path leads to the parent of the last slot"), 30)
+	r.Floor("index snapshots through Iterate() usable", r.Table("spine: index snapshots through Iterate()", "usable"), 500)
+	r.Floor("largest queue in the position-targeted group", r.Table("max:sizes", "spine PQ keys held"), 270000)
+	r.Floor("largest heap in the size-parity group", r.Table("max:sizes", "spine Heap items held"), 269990)
 	for _, n := range initBig {
 		r.Floor(fmt.Sprintf("heaps / queues constructed from an initial slice of %d items", n), r.Table("init: constructed from an initial slice of size", fmt.Sprint(n)), 4)
 	}
